@@ -879,9 +879,12 @@ func ensurePathExists(pd *container, path string, options *ApplyOptions) error {
 				}
 			}
 
-			// Check if the next part is a numeric index or "-".
+			// Check if the next part is an array index or "-".
 			// If yes, then create an array, otherwise, create an object.
-			if arrIndex, err = strconv.Atoi(parts[pi+1]); err == nil || parts[pi+1] == "-" {
+			// A digit string with a sign or a leading zero ("+1", "01") is
+			// not an array index (RFC 6901) but a member name.
+			if isIndexToken(parts[pi+1]) {
+				arrIndex, _ = strconv.Atoi(parts[pi+1]) // 0 for "-"
 				if arrIndex < 0 {
 
 					if !options.SupportNegativeIndices {
@@ -934,6 +937,25 @@ func ensurePathExists(pd *container, path string, options *ApplyOptions) error {
 	}
 
 	return nil
+}
+
+// isIndexToken reports whether a reference token addresses an array element:
+// "-", "0", a digit string without leading zero, or such a string (other than
+// "0") preceded by a minus sign, which counts from the end.
+func isIndexToken(tok string) bool {
+	if tok == "-" {
+		return true
+	}
+	digits := strings.TrimPrefix(tok, "-")
+	if digits == "" || (digits[0] == '0' && (len(digits) > 1 || digits != tok)) {
+		return false
+	}
+	for _, c := range digits {
+		if c < '0' || c > '9' {
+			return false
+		}
+	}
+	return true
 }
 
 func validateOperation(op Operation) error {
